@@ -416,7 +416,7 @@ class ExpressionParser(ParserBase):
         Do not cast to float via 'float()' in order to keep the original
         notation, e.g., do not convert 1E-3 to 0.003.
         """
-        return sym.FloatLiteral(value=s.replace("d", "e").replace("D", "e"))
+        return sym.FloatLiteral(value=s)
 
     def parse_f_float(self, s):
         """
